@@ -14,21 +14,33 @@ from harness.lib import hx, zl, cz, cbool, clist
 
 ID = 'C05'
 RULE = ('files of BED3/BED6/FASTQ/two-line FASTA/VCF/SAM built from per-record field texts (canonical and non-canonical '
-        'spellings, header lines, extra columns); programs of 1..7 steps over two registers drawn from {len, get f, '
-        't[slice], t[mask], t[int list], t[i], concatenate, replace(f=array), tolist, write} x {whole read, chunked read}; '
-        'plus integer-list selections with out-of-order interior bounded by first/last row, written unmodified; '
+        'spellings, header lines, extra columns, gzip-compressed, CRLF) and BAM files (read-only); programs of 1..9 steps over two '
+        'registers drawn from {len, get f, t[slice], t[mask], t[int list], t[i], concatenate, replace(f=array), tolist, write} x '
+        '{whole read, chunked read}; every length<=2 (thorough: <=3) program over a fixed 13-step menu; every field replaced and '
+        'written; integer-list selections with out-of-order interior bounded by first/last row, written unmodified; '
         'non-trivial = the program has an index, concatenate or write after a field access or a replace')
 EXHAUSTIVE = {'quick': False, 'thorough': False}
 TIE = 'translator+correspondence'
-ASSUMPTIONS = ['written bytes are compared lazy-vs-eager only when every record of the file is canonically spelled (C04 owns pass-through of non-canonical text); Coq decides canonicity (rec_canon)',
-               'BAM is not generated (no BAM encoder in this check); float columns and Optional[int] columns mixing "." with numbers are not generated (C02/C18 own them)',
-               'replacement arrays have the table length and the type the eager table itself holds for that field (StringArray, EncodedRaggedArray, int ndarray, RaggedArray of qualities, flat strand array)',
-               'a flat-alphabet column (strand) is observed as text: lazily it is an N x 1 ragged array, eagerly a flat array (see notes/C05.md)',
-               't[i] on formats with a ragged str column: the model states the row the code intends; a TypeError from npstructures RaggedView2 under NumPy 2 is tolerated by model_ok and reported through spec_ok when only one mode fails']
-PARTIAL = ['modified write of a SAM row whose tags field is empty is excluded by the guard (join_ok): SAMBuffer.join_fields writes no tab before the empty field, the eager writer does (C05_sam_empty_tags_refuted); such rows are not canonically spelled in generated files, and replacement values for the tags column are never empty',
-           'C05_refines_partial / C05_file_level_partial: concatenate guarded by "every operand has the replaced-key set of the first and the cached keys of the first" (the code takes the keys of the first operand only); refuted without the guard by C05_concat_drops_refuted, C05_concat_keyerror_refuted; unguarded for the repaired concatenate in C05_refines_fixed',
-           'all refinement theorems: guarded against concatenating a lazy table with a materialised one (C05_concat_mixed_refuted), writing a replaced column the writer cannot format (C05_write_replaced_refuted), parsing a SequenceID column of an empty buffer (C05_empty_sid_refuted)',
-           'written bytes are proved equal under canonical spelling only (C05_noncanonical_write_differs shows the statement is false otherwise)']
+ASSUMPTIONS = ['A-eager: the eager implementation is the eager model e_run of Model/C05.v (row lists + header context lost on derived tables + '
+               'VCF writer quirks); checked on every case by Corr.eager_ok (exact, written bytes included), proved equal to the row-list '
+               'Spec under eager_guard (C05_eager_is_spec); not proved: that the parser/serialiser of /repo compute rows_of_file / s_write (C02/C03)',
+               'written bytes are compared lazy-vs-eager only when every record of the file is canonically spelled (C04 owns pass-through of '
+               'non-canonical text); Coq decides canonicity (rec_canon); C05_spec_roundtrip shows every table has such a file',
+               'BAM is generated read-only (no replace / write: the BAM writer refuses modified data and compresses its output); chunk sizes of '
+               'BAM reads are >= the largest record (below that the reader ends the stream early in BOTH modes, C16/C01 matter); '
+               'CRLF SAM files are not generated (unreadable in both modes); float columns and Optional[int] with "." are not generated',
+               'replacement arrays have the table length and the type the eager table itself holds for that field',
+               't[i]: exact for lazily read tables of text formats with ragged columns (always raises); for materialised tables and for BAM '
+               'the model states the row and an error of npstructures RaggedView2 under NumPy 2 is tolerated by model_ok; spec_ok reports '
+               'it when only one mode fails']
+PARTIAL = ['C05_lazy_is_eager_partial (the property on the two models at HEAD) holds under m_guard_fixed (no concatenate of a lazy with a '
+           'materialised table [C05_concat_mixed_refuted]; no t[i] on a lazily read table with ragged columns [C05_at_ragged_refuted]; no write of '
+           'a replaced column the writer cannot format [C05_write_replaced_refuted]; modified SAM rows have tags [C05_sam_empty_tags_refuted]; '
+           'replacement columns of table length) and eager_guard (no header lines, no default header: [C05_eager_header_lost_refuted, '
+           'C05_eager_write_fails_refuted, C05_eager_default_header_refuted])',
+           'C05_refines_partial / C05_file_level_partial are about the concatenate BEFORE c5ab8ed (kept as history: first-operand keys), '
+           'C05_refines_fixed / C05_file_level_fixed about the code at HEAD',
+           'written bytes are proved equal under canonical spelling only (C05_noncanonical_write_differs)']
 PER_FILE = 40
 
 # ----------------------------------------------------------------------------- formats
@@ -47,7 +59,14 @@ FORMATS = {
                                        ('next_position', 'int'), ('length', 'int'), ('sequence', 'str'),
                                        ('quality', 'str'), ('extra', 'str')]),
 }
-FMT_ORDER = ['bed3', 'bed6', 'fastq', 'fasta2', 'vcf', 'sam']
+FORMATS['bam'] = dict(suffix='.bam', fields=[('chromosome', 'sid'), ('name', 'sid'), ('flag', 'int'), ('position', 'int'), ('mapq', 'int'),
+                                              ('cigar_op', 'str'), ('cigar_length', 'ilist'), ('sequence', 'str'), ('quality', 'qual')])
+FMT_ORDER = ['bed3', 'bed6', 'fastq', 'fasta2', 'vcf', 'sam']          # text formats (all operation kinds)
+TAGS = FMT_ORDER + ['bam']                                            # Coq format tags; BAM is read-only here
+NOCONCAT = ('fastq', 'fasta2', 'bam')                                 # buffer classes without `concatenate`
+BAM_REFS = [('chr1', 1000), ('chr2', 2000)]
+BAM_SEQ = '=ACMGRSVTWYHKDBN'
+BAM_CIG = 'MIDNSHP=X'
 KIND_CODE = {'sid': 0, 'str': 0, 'strand': 0, 'qual': 0, 'int': 1, 'int1': 2}   # Coq: KStr | KInt 0 | KInt (-1)
 
 
@@ -57,9 +76,40 @@ def _buffer_type(fmt):
     return {'bed6': Bed6Buffer, 'fasta2': bnp.TwoLineFastaBuffer}.get(fmt)
 
 
+def _bam_header():
+    import struct
+    text = b'@HD\tVN:1.0\n'
+    out = b'BAM\1' + struct.pack('<i', len(text)) + text + struct.pack('<i', len(BAM_REFS))
+    for n, l in BAM_REFS:
+        nb = n.encode() + b'\0'
+        out += struct.pack('<i', len(nb)) + nb + struct.pack('<i', l)
+    return out
+
+
+def _bam_record(rec):
+    """BAM alignment record (SAM spec 4.2) from the canonical field texts of C05's BAM rows."""
+    import struct
+    chrom, name, flag, pos, mapq, ops, lens, seq, qual = rec
+    nameb = name.encode() + b'\0'
+    cig = list(zip([BAM_CIG.index(c) for c in ops], [int(x) for x in lens.split(',')] if lens else []))
+    cigb = b''.join(struct.pack('<I', (l << 4) | op) for op, l in cig)
+    codes = [BAM_SEQ.index(c) for c in seq]
+    L = len(codes)
+    packed = bytes(((codes[i] << 4) | (codes[i + 1] if i + 1 < L else 0)) for i in range(0, L, 2))
+    body = (struct.pack('<iiBBHHHiiii', [r[0] for r in BAM_REFS].index(chrom), int(pos), len(nameb), int(mapq), 0, len(cig), int(flag), L, -1, -1, 0)
+            + nameb + cigb + packed + bytes(ord(c) - 33 for c in qual))
+    return struct.pack('<i', len(body)) + body
+
+
+def _header_bytes(case):
+    return _bam_header() if case['fmt'] == 'bam' else case.get('header', '').encode('latin1')
+
+
 def _record_bytes(case, rec):
     """Raw bytes of one record (the generator's ground truth of the file layout)."""
     fmt = case['fmt']
+    if fmt == 'bam':
+        return _bam_record(rec)
     eol = b'\r\n' if case.get('crlf') else b'\n'
     f = [x.encode('latin1') for x in rec]
     if fmt == 'fastq':
@@ -68,18 +118,22 @@ def _record_bytes(case, rec):
         return b'>' + f[0] + eol + f[1] + eol
     if fmt == 'sam':
         # the 12th dataclass field is "everything after column 11"; an empty extra means 11 columns
-        cols = f[:11] + ([f[11]] if f[11] else [])
+        # (sam_tab: the tag-less rows are spelled with the separating tab, as the eager writer itself spells them)
+        cols = f[:11] + ([f[11]] if (f[11] or case.get('sam_tab')) else [])
         return b'\t'.join(cols) + eol
     return b'\t'.join(f + [x.encode('latin1') for x in case.get('extra_cols', [])]) + eol
 
 
 def _file_bytes(case):
-    return case.get('header', '').encode('latin1') + b''.join(_record_bytes(case, r) for r in case['recs'])
+    """The (uncompressed) byte stream of the input; on disk it is gzip-compressed for BAM and for gz cases."""
+    return _header_bytes(case) + b''.join(_record_bytes(case, r) for r in case['recs'])
 
 
 # ----------------------------------------------------------------------------- implementation side
 def _cell(kind, x):
     import numpy as np
+    if kind == 'ilist':
+        return ','.join(str(int(v)) for v in np.asarray(x).ravel()).encode().hex()
     if kind in ('int', 'int1'):
         return int(np.asarray(x).ravel()[0]) if np.ndim(x) else int(x)
     if kind == 'qual':
@@ -93,6 +147,8 @@ def _cell(kind, x):
 
 def _column(kind, col):
     import numpy as np
+    if kind == 'ilist':
+        return [','.join(str(int(v)) for v in r).encode().hex() for r in col.tolist()]
     if kind in ('int', 'int1'):
         return [int(v) for v in np.asarray(col).ravel()]
     if kind == 'qual':
@@ -114,6 +170,8 @@ def _rows_from_tolist(fields, lst):
             v = getattr(e, name)
             if kind in ('int', 'int1'):
                 row.append(int(v))
+            elif kind == 'ilist':
+                row.append(','.join(str(int(q)) for q in v).encode().hex())
             elif kind == 'qual':
                 row.append(bytes([int(q) + 33 for q in v]).hex())
             else:
@@ -204,8 +262,10 @@ def _run_mode(case, path, d, lazy):
 def observe(case):
     d = tempfile.mkdtemp(prefix='c05_')
     try:
-        path = os.path.join(d, 'in' + FORMATS[case['fmt']]['suffix'])
-        open(path, 'wb').write(_file_bytes(case))
+        import gzip
+        zipped = case['fmt'] == 'bam' or case.get('gz')
+        path = os.path.join(d, 'in' + FORMATS[case['fmt']]['suffix'] + ('.gz' if case.get('gz') else ''))
+        open(path, 'wb').write(gzip.compress(_file_bytes(case)) if zipped else _file_bytes(case))
         return dict(lazy=_run_mode(case, path, d, True), eager=_run_mode(case, path, d, False))
     finally:
         shutil.rmtree(d, ignore_errors=True)
@@ -227,7 +287,7 @@ def _gen_cell(rng, fmt, name, kind, noncanon):
     if kind == 'strand':
         return rng.choice('+-.')
     if kind == 'sid':
-        if fmt in ('fastq', 'fasta2'):
+        if fmt in NOCONCAT:
             return rng.choice(['r1', 'read2 desc', 'x', 'seq_10/1'])
         return rng.choice(['chr1', 'chr2', 'chrX', 'c', 'scaffold_12'])
     if fmt == 'vcf':
@@ -316,7 +376,7 @@ def _sym_apply(fmt, regs, op):
     elif k == 'cat':
         src = [regs[j] for j in op[2]]
         new = _Sym(sum(x.n for x in src))
-        if src[0].kind == 'eager' or fmt in ('fastq', 'fasta2'):
+        if src[0].kind == 'eager' or fmt in NOCONCAT:
             new.kind = 'eager'
         else:
             new.setk = set().union(*[x.setk for x in src])
@@ -329,11 +389,13 @@ def _gen_prog(rng, fmt, n0, length, clean, chunked):
     nf = len(fields)
     ragged = any(k == 'str' for _, k in fields)
     regs = [_Sym(n0), _Sym(n0)]
-    if chunked and fmt in ('fastq', 'fasta2'):
+    if chunked and fmt in NOCONCAT:
         regs[0].kind = regs[1].kind = 'eager'
     prog = []
     kinds = ['len', 'get', 'slice', 'mask', 'take', 'at', 'cat', 'rep', 'tolist', 'write']
     weights = [1, 3, 2, 1.5, 1.5, 1, 2.5, 2.5, 1.5, 2.5]
+    if fmt == 'bam':                       # BAM is exercised read-only (no replace, no write)
+        weights = [1, 3, 2, 1.5, 1.5, 1, 2.5, 0, 2, 0]
     tries = 0
     while len(prog) < length and tries < 200:
         tries += 1
@@ -376,7 +438,7 @@ def _gen_prog(rng, fmt, n0, length, clean, chunked):
                 # the lazy run is expected to fail here while the eager one goes on: later steps would only
                 # compare two different tables, so the program ends with one observation of the register
                 prog.append(op)
-                prog.append(rng.choice([['len', r], ['tolist', r], ['write', r]]))
+                prog.append(rng.choice([['len', r], ['tolist', r]] + ([] if fmt == 'bam' else [['write', r]])))
                 return prog
         elif k == 'rep':
             f = rng.randrange(nf)
@@ -392,13 +454,17 @@ def _gen_prog(rng, fmt, n0, length, clean, chunked):
     # finish by observing the state the program built
     if prog and prog[-1][0] not in ('tolist', 'write', 'get') and rng.random() < 0.85:
         r = prog[-1][1]
-        prog.append(['tolist', r] if rng.random() < 0.5 else ['write', r])
+        prog.append(['tolist', r] if (rng.random() < 0.5 or fmt == 'bam') else ['write', r])
     return prog
 
 
 def _chunk_choice(rng, case):
     sizes = [len(_record_bytes(case, r)) for r in case['recs']]
     tot = sum(sizes)
+    if case['fmt'] == 'bam':
+        # below the size of a record the BAM reader silently ends the stream (both modes alike; C16/C01 own the reader)
+        m = max(sizes)
+        return rng.choice([m, m + 1, max(m, tot // 2), max(m, tot - 1), tot, tot + 1])
     return rng.choice([1, sizes[0], sizes[0] + 1, max(1, tot // 2), tot - 1, tot, tot + 1])
 
 
@@ -430,6 +496,30 @@ def _menu_prog(rng, fmt, n0, idxs):
         prog.append(['tolist', prog[-1][1]])
         prog.append(['write', prog[-1][1]])
     return prog
+
+
+def _finding_listed(fid):
+    """read-only look at the findings lists (known_findings.json and the builder's extra file)"""
+    root = os.path.dirname(os.path.dirname(os.path.dirname(os.path.abspath(__file__))))
+    for p in (os.path.join(root, 'known_findings.json'), os.environ.get('VERIF_EXTRA_FINDINGS')):
+        try:
+            if p and any(f.get('id') == fid for f in json.load(open(p)).get('findings', [])):
+                return True
+        except Exception:
+            pass
+    return False
+
+
+def _gen_bam(rng, nrec):
+    recs = []
+    for i in range(nrec):
+        L = rng.choice([1, 2, 3, 4, 5, 8])
+        seq = ''.join(rng.choice('ACGTN') for _ in range(L))
+        ops, lens = rng.choice([('M', [L]), ('MIM', [1, 1, max(1, L - 2)]), ('SM', [1, max(1, L - 1)])]) if L > 1 else ('M', [1])
+        recs.append([rng.choice(['chr1', 'chr2']), rng.choice(['r%d' % i, 'read_%d/1' % i, 'x']), str(rng.choice([0, 16, 99, 147])),
+                     str(rng.choice([0, 5, 99, 999])), str(rng.choice([0, 30, 60])), ops, ','.join(str(x) for x in lens), seq,
+                     ''.join(rng.choice(QCH) for _ in range(L))])
+    return dict(fmt='bam', recs=recs, header='', extra_cols=[])
 
 
 def _ordered_file(fmt, equal):
@@ -513,6 +603,41 @@ def generate(tier, seed):
                     c['chunk'] = None
                     c['prog'] = prog
                     cases.append(c)
+    # (e) BAM, read-only (len, field access, every kind of index, t[i], concatenate, tolist), whole and chunked
+    for i in range(60 if tier == 'quick' else 400):
+        nrec = rng.choice([1, 2, 3, 3, 4, 5])
+        c = _gen_bam(rng, nrec)
+        chunked = rng.random() < 0.4
+        c['chunk'] = _chunk_choice(rng, c) if chunked else None
+        c['prog'] = _gen_prog(rng, 'bam', nrec, rng.randint(1, 6), i % 2 == 0, chunked)
+        cases.append(c)
+    # (f) gzip-compressed and CRLF inputs of the text formats (the reader's prepend mode / carriage-return handling)
+    for i in range(120 if tier == 'quick' else 600):
+        fmt = FMT_ORDER[i % len(FMT_ORDER)]
+        nrec = rng.choice([1, 2, 3, 4])
+        c = _gen_file(rng, fmt, nrec, True)
+        if (i // len(FMT_ORDER)) % 2 == 0 or fmt == 'sam':     # a CRLF SAM file cannot be read at all (either mode)
+            c['gz'] = True
+        else:
+            c['crlf'] = True
+        chunked = rng.random() < 0.5
+        c['chunk'] = _chunk_choice(rng, c) if chunked else None
+        c['prog'] = _gen_prog(rng, fmt, nrec, rng.randint(1, 6), True, chunked)
+        cases.append(c)
+    # (g) SAM files whose tag-less rows are spelled with the separating tab (canonical for the eager writer), a field
+    #     replaced, then written: generated only once the finding is listed (the class is a known lazy/eager difference)
+    if _finding_listed('C05-sam-empty-tags-trailing-tab'):
+        for i in range(24 if tier == 'quick' else 100):
+            nrec = rng.choice([1, 2, 3])
+            c = _gen_file(rng, 'sam', nrec, True)
+            for k, rec in enumerate(c['recs']):
+                if k == 0 or rng.random() < 0.5:
+                    rec[11] = ''
+            c['sam_tab'] = True
+            c['chunk'] = None
+            f = rng.choice([1, 3, 4, 9])
+            c['prog'] = [['write', 0], ['rep', 0, f, _new_vals(rng, 'sam', f, nrec)], ['write', 0], ['tolist', 0]]
+            cases.append(c)
     cases.sort(key=lambda c: len(c['prog']) + len(c['recs']))
     seen, out = set(), []
     for c in cases:
@@ -604,7 +729,7 @@ def to_coq(case, o):
     che = o['eager'].get('chunk_lens', []) if ok else []
     return ('{| k_fmt := %s; k_header := %s; k_recs := %s; k_file := %s; k_chunked := %s; k_chunks := %s; k_chunks_eager := %s; '
             'k_prog := %s; k_lazy := %s; k_eager := %s |}' % (
-                cz(FMT_ORDER.index(fmt)), hx(case.get('header', '').encode('latin1')), recs, hx(_file_bytes(case)),
+                cz(TAGS.index(fmt)), hx(_header_bytes(case)), recs, hx(_file_bytes(case)),
                 cbool(case.get('chunk') is not None),
                 clist([zl(x) for x in chl], 'list Z'), clist([zl(x) for x in che], 'list Z'),
                 clist([_op(case, p) for p in prog], 'op'),
@@ -652,9 +777,9 @@ def _canonical(case):
         for (name, kind), t in zip(FORMATS[case['fmt']]['fields'], rec):
             if kind in ('int', 'int1') and str(int(t)) != t:
                 return False
-        if case['fmt'] == 'sam' and rec[11] == '':
+        if case['fmt'] == 'sam' and rec[11] == '' and not case.get('sam_tab'):
             return False
-    return True
+    return case['fmt'] != 'bam'
 
 
 def _strip_header(b, fmt):
@@ -693,7 +818,7 @@ def _explain_steps(case, o):
     L, E = o['lazy']['steps'], o['eager']['steps']
     canon = _canonical(case)
     regs = [_Sym(len(case['recs'])), _Sym(len(case['recs']))]
-    if case.get('chunk') is not None and fmt in ('fastq', 'fasta2'):
+    if case.get('chunk') is not None and fmt in NOCONCAT:
         regs[0].kind = regs[1].kind = 'eager'
     stale = [False, False]        # the lazy register missed a concatenate the eager one performed
     out = []
@@ -727,6 +852,11 @@ def _explain_steps(case, o):
             elif k == 'write' and a.get('e') in ('ValueError', 'TypeError') and 'v' in b and fmt == 'fastq' and 2 in regs[r].setk \
                     and regs[r].kind == 'lazy' and regs[r].n > 0:
                 why = 'C05-replaced-column-not-writable'
+            elif k == 'write' and 'v' in a and 'v' in b and fmt == 'sam' and regs[r].kind == 'lazy' and regs[r].setk \
+                    and bytes.fromhex(a['v']) != bytes.fromhex(b['v']) \
+                    and bytes.fromhex(b['v']).replace(b'\t\n', b'\n') == bytes.fromhex(a['v']):
+                # modified lazy write: SAMBuffer.join_fields writes no tab before an empty tags field, the eager writer does
+                why = 'C05-sam-empty-tags-trailing-tab'
             elif k == 'write' and 'v' in a and 'v' in b and _header_lost(case, a['v'], b['v']):
                 why = 'C05-header-lost-on-derived-eager-table'
             out.append((i, why))
